@@ -1,6 +1,7 @@
 import IgVerif.Lemmas.Cond
 import IgVerif.Model.CondC
 import IgVerif.Gen.C09Cmds
+import IgVerif.Lemmas.SkipScan
 /-!
 # C09 — conditional inclusion keeps exactly the groups a conforming preprocessor keeps
 -/
@@ -77,5 +78,37 @@ def demo : Blocks MEnv :=
 
 example : (specBs {} demo).2 = [2, 3, 6] ∧ (specBs {} demo).1.errors = 0 := by decide
 example : (run none ({} : MEnv) (flattenBs demo)).2 = [2, 3, 6] := by decide
+
+/-! ## the text of a skipped group (`Model/SkipScan.lean`: `skip_false_if_block` character by character) -/
+open IgVerif.Skip in
+/-- **String literals in skipped text are opaque.** Two skipped groups that differ only in
+the text of a string literal (no quote, newline or backslash in it) end at the same place:
+a `/*`, `//`, `#endif` or `#else` inside the literal is not seen. -/
+theorem c09_string_text_irrelevant (fuel level : Nat) (sol : Bool) (body1 body2 post : List Nat)
+    (h1 : ∀ c ∈ body1, c ≠ 34 ∧ c ≠ 10 ∧ c ≠ 92) (h2 : ∀ c ∈ body2, c ≠ 34 ∧ c ≠ 10 ∧ c ≠ 92) :
+    skipGroup (fuel + 1) level ⟨some 34, sol, body1 ++ 34 :: post⟩ =
+      skipGroup (fuel + 1) level ⟨some 34, sol, body2 ++ 34 :: post⟩ := by
+  rw [skipGroup_string fuel level sol body1 post h1, skipGroup_string fuel level sol body2 post h2]
+
+open IgVerif.Skip in
+/-- **Block comments in skipped text are opaque**: whatever a comment contains — directive
+names, `#`, quotes, `//`, line breaks — scanning resumes behind its `*/` in one and the same
+state. -/
+theorem c09_comment_text_irrelevant (fuel : Nat) (sol : Bool) (body1 body2 post : List Nat)
+    (h1 : noClose body1 = true) (h2 : noClose body2 = true) :
+    skipComment (fuel + 1) ⟨some 47, sol, 42 :: (body1 ++ 42 :: 47 :: post)⟩ =
+      skipComment (fuel + 1) ⟨some 47, sol, 42 :: (body2 ++ 42 :: 47 :: post)⟩ := by
+  rw [skipComment_block fuel sol body1 post h1, skipComment_block fuel sol body2 post h2]
+  have e : ∀ (b : List Nat) (s : Bool), (b ++ [42, 47]).foldl solAfter s = false := by
+    intro b s
+    rw [List.foldl_append]
+    simp only [List.foldl_cons, List.foldl_nil]
+    generalize List.foldl solAfter s b = x
+    cases x <;> decide
+  rw [e, e]
+
+-- `"/*"` in a skipped group used to swallow the `#endif`; `#` alone on a line used to take the next line
+example : (Skip.skipFalseIfBlock (Skip.word "s = \"/*\";\n#endif\nint k;\n")).1 = .endif := by decide
+example : (Skip.skipFalseIfBlock (Skip.word "#\nendif\nint lost;\n#endif\nint k;\n")).2.rest = Skip.word "int k;\n" := by decide
 
 end IgVerif.C09
